@@ -332,6 +332,25 @@ func (rp *replayer) concretize() string {
 				if strings.Contains(lf.Path, "._") || strings.HasSuffix(lf.Path, "_") {
 					continue
 				}
+				acc, atomicT := rp.fieldAccess(u.Elem(), lf.Acc)
+				if acc == "" {
+					continue // unexported field of another package: left zero
+				}
+				if atomicT != "" {
+					if iv, ok := e.intValue(); ok {
+						switch atomicT {
+						case "Bool":
+							rp.setup = append(rp.setup, fmt.Sprintf("%s%s.Store(%v)", vn, acc, iv.Sign() != 0))
+						case "Int64":
+							rp.setup = append(rp.setup, fmt.Sprintf("%s%s.Store(int64(%s))", vn, acc, iv))
+						case "Int32":
+							rp.setup = append(rp.setup, fmt.Sprintf("%s%s.Store(int32(%s))", vn, acc, iv))
+						case "Uint64":
+							rp.setup = append(rp.setup, fmt.Sprintf("%s%s.Store(uint64(%s))", vn, acc, iv))
+						}
+					}
+					continue
+				}
 				switch {
 				case lf.Sort == SBool:
 					rp.setup = append(rp.setup, fmt.Sprintf("%s = %s", target, e.Atom))
@@ -917,3 +936,32 @@ func simplifyNoQuant(t *Term) *Term {
 }
 
 var _ = ssa.NewConst
+
+// fieldAccess renders the selector path of a leaf if every field on it can be
+// named from the function's package; sync/atomic values are set through Store.
+func (rp *replayer) fieldAccess(t types.Type, acc []int) (string, string) {
+	pkg := rp.g.Fn.Pkg.Pkg
+	var sb strings.Builder
+	for k, i := range acc {
+		st, ok := t.Underlying().(*types.Struct)
+		if !ok {
+			return "", ""
+		}
+		if n, ok := t.(*types.Named); ok && n.Obj().Pkg() != nil && n.Obj().Pkg().Path() == "sync/atomic" && k == len(acc)-1 {
+			return sb.String(), n.Obj().Name()
+		}
+		f := st.Field(i)
+		if !f.Exported() && f.Pkg() != pkg {
+			return "", ""
+		}
+		if f.Name() == "_" {
+			return "", ""
+		}
+		sb.WriteString("." + f.Name())
+		t = f.Type()
+	}
+	if sb.Len() == 0 {
+		return " ", ""
+	}
+	return sb.String(), ""
+}
